@@ -185,6 +185,7 @@ def run(ctx):
         'actor_ids': 'ActorId::Local(any u64), pairwise distinct per node; node B ids unrelated to node A ids',
         'node_names': '"n1" / "n2" in both orders (symbolic choice)',
         'unwind': {'n=2': 3, 'n=3': 4}, 'unwinding_assertions': 'on', 'kani_default_checks': 'on (panics, overflow, memory safety)',
+        'assertion_reach_checks': 'off (--no-assertion-reach-checks, 40% faster); vacuity is guarded by the kani::cover! properties placed after the assertions',
         'permutations': 'n=2: swap; n=3: swap(0,1) and rotation (generate S3)',
         'outside': 'n > %d; equal node names; ActorId::Remote candidates; the runtime protocol around the kernel (status replies, ready events, interleavings); '
                    'the authentication filter that builds the candidate list ([ext], not built)' % nmax})
@@ -210,7 +211,8 @@ def run(ctx):
     def kani_job():
         try:
             box['res'] = kanirun.verify(harnesses, jobs=len(harnesses), harness_timeout_s=600 if tier == 'quick' else 2400,
-                                        wall_timeout_s=900 if tier == 'quick' else 3000, tag='C18', stubbing=False)
+                                        wall_timeout_s=900 if tier == 'quick' else 3000, tag='C18', stubbing=False,
+                                        extra=['--no-assertion-reach-checks'])
         except Exception as e:   # noqa
             box['exc'] = e
     th = threading.Thread(target=kani_job)
